@@ -77,6 +77,9 @@ pub fn dump_of<F: Read + Seek>(mut comp: CompoundFile<F>) -> String {
 pub enum BackendKind {
     Mem,
     File(String),
+    /// the crate's own path constructors (`cfb::create`, `cfb::open_rw`) over a path where a longer
+    /// file with other content already exists
+    PathApi(String),
     Chunky(Chunking),
 }
 
@@ -146,9 +149,31 @@ impl Real {
                         let f = std::fs::OpenOptions::new().read(true).write(true).create(true).truncate(true).open(path).unwrap();
                         Backend::File(f, path.clone())
                     }
+                    BackendKind::PathApi(path) => {
+                        // what was at the path before must not matter: longer, and not zeros
+                        std::fs::write(path, vec![0xabu8; 300_000]).unwrap();
+                        if version == Version::V4 {
+                            // `cfb::create(path)`, then the same std::fs::File is handed on
+                            match cfb::create(path) {
+                                Ok(c) => Backend::File(c.into_inner(), path.clone()),
+                                Err(e) => return format!("err {}", err_kind(&e)),
+                            }
+                        } else {
+                            let f = std::fs::OpenOptions::new().read(true).write(true).create(true).truncate(true).open(path).unwrap();
+                            Backend::File(f, path.clone())
+                        }
+                    }
                 };
                 self.file = Some(file.image_source());
-                match CompoundFile::create_with_version(version, file) {
+                let via_path = matches!(self.backend, BackendKind::PathApi(_)) && version == Version::V4;
+                let made = if via_path {
+                    let mut file = file;
+                    file.seek(SeekFrom::Start(0)).unwrap();
+                    CompoundFile::open(file)
+                } else {
+                    CompoundFile::create_with_version(version, file)
+                };
+                match made {
                     Ok(c) => {
                         // reopen through OpenOptions when a buffer size is configured
                         if let Some(m) = self.maxbuf {
